@@ -137,6 +137,6 @@ def sweep(tier):
 
 
 PARTS = [
-    Part('random', 'hyp', run_case, strategy=cases(), quick=1500, thorough=240000, quick_shards=6),
+    Part('random', 'hyp', run_case, strategy=cases(), quick=4000, thorough=240000, quick_shards=6),
     Part('sweep', 'sweep', run_case, sweep=sweep, quick_shards=6, exhaustive=True),
 ]
